@@ -290,6 +290,8 @@ UNITS["auth"] = dict(
         dict(name="c33::remove_step", prop="C33", timeout=600, encodes="state::remove", bounds="as add_step"),
         dict(name="c33::promote_step", prop="C33", timeout=600, encodes="state::promote, state::modify", bounds="as add_step"),
         dict(name="c33::demote_step", prop="C33", timeout=600, encodes="state::demote, state::modify", bounds="as add_step"),
+        dict(name="c33::any_operation_with_conditions_needs_an_active_manager", prop="C33", timeout=600, encodes="state::{add,remove,promote,demote,modify} with C = u8 conditions",
+             bounds="arbitrary conditioned state over 3 ids, symbolic operation kind/actor/target/access"),
         dict(name="c33::create_introduces_exactly_initial_members", prop="C33", timeout=300, encodes="state::create", bounds="1 or 2 initial members, all access levels"),
     ],
 )
@@ -461,6 +463,8 @@ UNITS["tasks"] = dict(
              bounds="pipeline thread runs mark_as_done to completion at any of the submitter's synchronisation operations (lock poll, guard drop, notified() creation, Notified poll) or afterwards"),
         dict(name="unit::proofs::two_waiters_both_return", prop="C14", timeout=300, encodes="two Task::ready futures vs Task::mark_as_done", bounds="as above, two submitters stepped alternately"),
         dict(name="unit::proofs::tracked_submission_completes", prop="C14", tier="thorough", timeout=1500, encodes="TaskTracker::track, Task::ready vs TaskTracker::mark_as_done", bounds="as above, through the tracker"),
+        dict(name="unit::proofs::waiter_polled_inside_mark_as_done", prop="C14", timeout=600, encodes="Task::mark_as_done with Task::ready polled inside it",
+             bounds="roles swapped: the submitter's ready() is polled once at any synchronisation operation of mark_as_done (lock poll, guard drop, notify_waiters) — with or without a poll before"),
         dict(name="unit::proofs::concurrent_track_of_same_operation", prop="C14", timeout=900, encodes="TaskTracker::track x2 interleaved, TaskTracker::mark_as_done, Task::ready",
              bounds="submitter B's whole track(id) runs at any synchronisation operation of submitter A's track(id) (or afterwards); one mark_as_done"),
         dict(name="unit::proofs::resubmission_after_completion_completes", prop="C14", timeout=300, encodes="TaskTracker::{track, mark_as_done}, Task::ready", bounds="submit, duplicate submit, completion, re-submit, completion (sequential)"),
